@@ -183,6 +183,17 @@ fn make(k: &Kind, form: Form, base: usize, d: i64, seq: &[FItem], mode: u64) -> 
         0 => {}
         // the reduced-core device: lds/sts are one word there in both passes
         4 => p.src.push_str(".device ATtiny20\n"),
+        // a device with exactly 4 K words: a 12-bit displacement could wrap around the flash there,
+        // but the statement says an unreachable target is an error, never a wrapped offset
+        5 => p.src.push_str(".device ATmega8\n"),
+        6 => {
+            p.src.push_str(".device ATmega8\n");
+            p.org(0x7f0);
+        }
+        7 => {
+            p.src.push_str(".device ATmega8\n");
+            p.org(0xff0 - 8);
+        }
         1 => {
             for _ in 0..5 {
                 p.line("nop", 1);
@@ -281,6 +292,14 @@ pub fn run(tier: Tier) -> i32 {
                     work.push((ki, f, base, *d));
                 }
             }
+            // rjmp/rcall on the 4 K-word device, targets inside its flash
+            if k.hi == 2047 {
+                for base in 5..8usize {
+                    for d in (-2056i64..=-2040).chain(-4..=4).chain(2040..=2056).chain([-4095, -4090, -3000, 3000, 4000, 4080]) {
+                        work.push((ki, f, base, d));
+                    }
+                }
+            }
             // branches on the reduced-core device (within its 1 K words; no wrap-around question
             // arises for 7-bit displacements)
             if k.hi == 63 {
@@ -305,13 +324,29 @@ pub fn run(tier: Tier) -> i32 {
             let h = (wi as u64).wrapping_mul(0x9e3779b97f4a7c15).wrapping_add(rep_i.wrapping_mul(0x632be59bd9b4e019));
             let si = ((wi as u64 * per_case + rep_i) % seqs.len() as u64) as usize;
             let mode = h >> 33;
-            let seq = if *base == 4 { &seqs_reduced[si % seqs_reduced.len()] } else { &seqs[si] };
+            let no_jmp: Vec<FItem>;
+            let seq: &Vec<FItem> = if *base == 4 {
+                &seqs_reduced[si % seqs_reduced.len()]
+            } else if *base >= 5 {
+                // ATmega8 has no jmp: drop that item from the filler
+                no_jmp = seqs[si].iter().cloned().filter(|i| *i != FItem::Jmp).collect();
+                &no_jmp
+            } else {
+                &seqs[si]
+            };
             let b = match make(k, *form, *base, *d, seq, mode) {
                 Some(b) => b,
                 None => continue,
             };
+            // on the 4 K-word device everything that is emitted must lie inside its flash
+            if *base >= 5 {
+                let emitted_end = if b.marker { b.instr_addr.max(b.target_addr) + 2 } else { b.instr_addr + 3 };
+                if emitted_end > 4096 || b.target_addr < 0 || b.target_addr >= 4096 {
+                    continue;
+                }
+            }
             any = true;
-            if *base != 4 {
+            if *base < 4 {
                 local_seqs.push(si);
             }
             let o = sut::build_str(&b.src);
@@ -414,7 +449,7 @@ pub fn run(tier: Tier) -> i32 {
     for s in samples.into_inner().unwrap() {
         rep.sample(|| s);
     }
-    rep.assume("rjmp/rcall on the default device only: wrap-around jumps on small devices are an AVRASM extension the statement does not claim; branches are also placed on ATtiny20");
+    rep.assume("rjmp/rcall are also placed on a 4 K-word device (ATmega8): AVRASM lets a 12-bit displacement wrap around the flash there, but the statement says an unreachable target is an error, never a wrapped offset, so a wrapped encoding is a violation; targets outside the device's flash are not generated there");
     rep.assume("absolute numeric targets below 0 are not generated");
     let coverage = cov(json!({
         "evaluations": evals.load(Ordering::Relaxed),
